@@ -426,7 +426,17 @@ func ShortStack(s string) string {
 	lines := strings.Split(s, "\n")
 	for i := 0; i+1 < len(lines); i++ {
 		if strings.Contains(lines[i+1], "/repo/") && !strings.Contains(lines[i], "panic(") {
-			out = append(out, strings.TrimSpace(lines[i])+" @ "+strings.TrimSpace(lines[i+1]))
+			fn := strings.TrimSpace(lines[i])
+			if j := strings.Index(fn, "("); j > 0 && !strings.HasPrefix(fn[j:], "(*") {
+				fn = fn[:j]
+			} else if j := strings.LastIndex(fn, "("); j > 0 {
+				fn = fn[:j]
+			}
+			loc := strings.TrimSpace(lines[i+1])
+			if j := strings.Index(loc, " +0x"); j > 0 {
+				loc = loc[:j]
+			}
+			out = append(out, fn+" @ "+loc)
 			if len(out) >= 6 {
 				break
 			}
